@@ -1257,6 +1257,156 @@ theorem C34_nil_takes_nothing (s : State) (h : (pop s).1 = .none) : (pop s).2 = 
     rw [if_neg hne] at h
     cases h
 
+/-! ### TransactionState: RemoveExtrinsic takes the extrinsic out of pool AND queue -/
+
+/-- the queue part is related to a spec list none of whose items has hash `h` -/
+def QAbsent (h : Nat) (q : State) : Prop := ∃ t, Rel q t ∧ ∀ x ∈ t.items, x.hash ≠ h
+
+theorem qabsent_facts {h : Nat} {q : State} (ha : QAbsent h q) :
+    (¬ ∃ k, k < q.pq.len ∧ (q.pq.arr.get k).hash = h) ∧ q.txs.lookup h = none := by
+  obtain ⟨t, hR, hno⟩ := ha
+  constructor
+  · rintro ⟨k, hk, hkh⟩
+    exact hno _ ((hR.mem _).mpr ⟨k, hk, rfl⟩) hkh
+  · cases hl : q.txs.lookup h with
+    | none => rfl
+    | some o =>
+      obtain ⟨x, hx, hxh, _⟩ := (hR.txs h o).mp hl
+      exact absurd hxh (hno x hx)
+
+theorem lookup_poolDel (m : List (Nat × Nat)) (h : Nat) : (poolDel m h).lookup h = none := by
+  unfold poolDel
+  rw [lookup_filter_ne]; simp
+
+/-- one TransactionState step that is not `push h _` keeps `h` out of the queue and does not
+    yield it -/
+theorem tsStep_absent {h : Nat} {ts : TS} (ha : QAbsent h ts.q) (op : TSOp)
+    (hop : ∀ p, op ≠ .push h p) :
+    QAbsent h (tsStep ts op).2.q ∧ (tsStep ts op).1 ≠ .tx h := by
+  obtain ⟨t, hR, hno⟩ := ha
+  cases op with
+  | addPool h' p => exact ⟨⟨t, hR, hno⟩, by simp [tsStep]⟩
+  | unpool h' => exact ⟨⟨t, hR, hno⟩, by simp [tsStep]⟩
+  | rm h' =>
+    have hr := remove_rel hR h'
+    refine ⟨⟨_, hr.2, ?_⟩, ?_⟩
+    · intro x hx
+      simp only [sstep] at hx
+      exact hno x (List.mem_filter.mp hx).1
+    · show (removeExtrinsic ts.q h').1 ≠ .tx h
+      rw [hr.1]; simp
+  | push h' p =>
+    have hne : h' ≠ h := fun e => hop p (by rw [e])
+    have hr := push_rel hR h' p
+    refine ⟨⟨_, hr.2, ?_⟩, ?_⟩
+    · intro x hx
+      simp only [sstep] at hx
+      split at hx
+      · exact hno x hx
+      · rcases (mem_insertSorted _ x _).mp hx with rfl | hx'
+        · exact hne
+        · exact hno x hx'
+    · show (push ts.q h' p).1 ≠ .tx h
+      rw [hr.1]
+      simp only [sstep]
+      split <;> simp
+  | pop =>
+    have hr := pop_rel hR
+    refine ⟨⟨_, hr.2, ?_⟩, ?_⟩
+    · intro x hx
+      simp only [sstep] at hx
+      cases hit : t.items with
+      | nil => rw [hit] at hx; simp only at hx; exact hno x (by rw [hit] at hx ⊢; exact hx)
+      | cons y r =>
+        rw [hit] at hx
+        simp only at hx
+        exact hno x (by rw [hit]; exact List.mem_cons_of_mem _ hx)
+    · show (pop ts.q).1 ≠ .tx h
+      rw [hr.1]
+      simp only [sstep]
+      cases hit : t.items with
+      | nil => simp
+      | cons y r =>
+        simp only
+        intro he
+        have : y.hash = h := by simpa using he
+        exact hno y (by rw [hit]; exact List.mem_cons_self) this
+  | peek =>
+    refine ⟨⟨t, hR, hno⟩, ?_⟩
+    show peek ts.q ≠ .tx h
+    rw [peek_rel hR]
+    simp only [sstep]
+    cases hit : t.items with
+    | nil => simp
+    | cons y r =>
+      simp only
+      intro he
+      have : y.hash = h := by simpa using he
+      exact hno y (by rw [hit]; exact List.mem_cons_self) this
+  | exist h' => exact ⟨⟨t, hR, hno⟩, by simp [tsStep]⟩
+  | pending => exact ⟨⟨t, hR, hno⟩, by simp [tsStep]⟩
+  | pendingPool => exact ⟨⟨t, hR, hno⟩, by simp [tsStep]⟩
+
+theorem tsRun_absent {h : Nat} (ops : List TSOp) (hno : ∀ p, TSOp.push h p ∉ ops) :
+    ∀ {ts : TS}, QAbsent h ts.q → Out.tx h ∉ (tsRun ts ops).1 := by
+  induction ops with
+  | nil => intro ts _ hm; simp [tsRun] at hm
+  | cons op ops ih =>
+    intro ts ha hm
+    have hs := tsStep_absent ha op (fun p e => hno p (by rw [e]; exact List.mem_cons_self))
+    simp only [tsRun, List.mem_cons] at hm
+    rcases hm with hm | hm
+    · exact hs.2 hm.symm
+    · exact ih (fun p hp => hno p (List.mem_cons_of_mem _ hp)) hs.1 hm
+
+/-- every TransactionState reached from the initial one has a well-formed queue part -/
+theorem tsRun_rel (ops : List TSOp) : ∀ {ts : TS}, (∃ t, Rel ts.q t) → ∃ t, Rel (tsRun ts ops).2.q t := by
+  induction ops with
+  | nil => intro ts h; exact h
+  | cons op ops ih =>
+    intro ts ⟨t, hR⟩
+    apply ih
+    cases op with
+    | rm h => exact ⟨_, (remove_rel hR h).2⟩
+    | push h p => exact ⟨_, (push_rel hR h p).2⟩
+    | pop => exact ⟨_, (pop_rel hR).2⟩
+    | addPool h p => exact ⟨t, hR⟩
+    | unpool h => exact ⟨t, hR⟩
+    | peek => exact ⟨t, hR⟩
+    | exist h => exact ⟨t, hR⟩
+    | pending => exact ⟨t, hR⟩
+    | pendingPool => exact ⟨t, hR⟩
+
+/-- **C34_state_remove_both.**  For every TransactionState reached by any operation sequence
+    `ops1`: right after `RemoveExtrinsic(h)` the extrinsic is in neither container (not in the
+    pool, in no slot of the ready queue, not in `txs`, `Exists` answers false), and whatever
+    sequence `ops2` follows, as long as `h` is not pushed again, no Pop or Peek ever yields it. -/
+theorem C34_state_remove_both (ops1 ops2 : List TSOp) (h : Nat) (hno : ∀ p, TSOp.push h p ∉ ops2) :
+    let ts := (tsStep (tsRun TS.init ops1).2 (.rm h)).2
+    ts.pool.lookup h = none ∧
+    (¬ ∃ k, k < ts.q.pq.len ∧ (ts.q.pq.arr.get k).hash = h) ∧
+    ts.q.txs.lookup h = none ∧
+    (tsStep ts (.exist h)).1 = .bool false ∧
+    Out.tx h ∉ (tsRun ts ops2).1 := by
+  intro ts
+  obtain ⟨t, hR⟩ := tsRun_rel ops1 (ts := TS.init) ⟨Spec.init, rel_init⟩
+  have hr := remove_rel hR h
+  have ha : QAbsent h ts.q := by
+    refine ⟨_, hr.2, ?_⟩
+    intro x hx
+    simp only [sstep] at hx
+    have := (List.mem_filter.mp hx).2
+    simpa using this
+  have hf := qabsent_facts ha
+  have hp : ts.pool.lookup h = none := lookup_poolDel _ h
+  refine ⟨hp, hf.1, hf.2, ?_, tsRun_absent ops2 hno ha⟩
+  show Out.bool ((ts.pool.lookup h).isSome || (ts.q.txs.lookup h).isSome) = .bool false
+  rw [hp, hf.2]; rfl
+
+/-- non-vacuity: in pool and queue at once (promotion window), then removed -/
+example : (tsRun TS.init [.addPool 1 7, .push 2 1, .push 1 7, .rm 1, .unpool 1, .exist 1, .peek, .pop, .pop]).1 =
+    [.ok, .ok, .ok, .ok, .ok, .bool false, .tx 2, .tx 2, .none] := by decide
+
 /-! ### concurrent part: lock tables + monitor theorem -/
 
 def tablePQ : List Monitor.Method := (Monitor.ofTriples lockTablePQ).getD []
